@@ -16,7 +16,7 @@ import core
 
 PRINT_FMT = {1: "2D/2M/4Y 2h:2m:2s", 2: "4Y-2M-2DT2h:2m:2s", 3: "4Y-2M-2D 2h:2m:2s.3z", 4: "2D/2M/4Y-2h:2m:2s.3z"}
 READ_FMT = {1: "2D/2M/4Y 2h:2m:2s", 2: "4Y-2M-2DT2h:2m:2sZ", 3: "4Y-2M-2D 2h:2m:2s.3z", 4: "2D/2M/4Y-2h:2m:2s.3z"}
-SEP = {"c": ",", "s": ";", "t": "\t"}
+SEP = {"c": ",", "s": ";", "t": "\t", "b": " "}
 
 VALUES = {
     "ENU": [(0.0, -0.0005, 0.0015), (-123456.789, 999999.9994, 1e-7), (12.5, -0.004, 8848.86), (-0.9996, 654321.0004, -12.3456)],
